@@ -987,6 +987,13 @@ fn find_relative_offsets() {
         let container = ts(cb, ce);
         let sel = ts(b, e);
         let inside = cb <= b && e <= ce;
+        // the cursor helpers: a cursor only for a selection that lies inside the container ("None if they are not embedded")
+        let (rb, re) = (sel.relative_begin(&container), sel.relative_end(&container));
+        let (wb, we) = if inside { (Some(b - cb), Some(e - cb)) } else { (None, None) };
+        if rb != wb || re != we {
+            println!("WITNESS {{\"clause\":\"TextSelection::relative_begin/relative_end\",\"selection\":\"{}..{}\",\"container\":\"{}..{}\",\"relative_begin\":\"{:?}\",\"relative_end\":\"{:?}\",\"want\":\"{:?} {:?}\"}}", b, e, cb, ce, rb, re, wb, we);
+            return;
+        }
         for mode in [OffsetMode::BeginBegin, OffsetMode::BeginEnd, OffsetMode::EndEnd, OffsetMode::EndBegin] {
             let got = std::panic::catch_unwind(|| sel.relative_offset(&container, mode));
             let bad = match &got {
@@ -1022,6 +1029,13 @@ fn find_relative_offsets() {
                 println!("WITNESS {{\"clause\":\"TextSelection::textselection_by_offset/accept_iff\",\"container\":\"{}..{}\",\"offset\":\"{:?}\",\"accepted\":{},\"should_accept\":{}}}", cb, ce, off, matches!(got, Ok(Ok(_))), want);
                 return;
             }
+            // absolute_offset: the same acceptance, the result is the same range in absolute coordinates
+            let got = std::panic::catch_unwind(|| container.absolute_offset(&off));
+            let bad = match &got { Ok(Ok(a)) => !want || a.begin != Cursor::BeginAligned((cb as isize + rel(&bc).unwrap()) as usize) || a.end != Cursor::BeginAligned((cb as isize + rel(&ec).unwrap()) as usize), Ok(Err(_)) => want, Err(_) => true };
+            if bad {
+                println!("WITNESS {{\"clause\":\"TextSelection::absolute_offset/accept_iff\",\"container\":\"{}..{}\",\"offset\":\"{:?}\",\"result\":\"{:?}\",\"should_accept\":{}}}", cb, ce, off, got.map_err(|_| "panic"), want);
+                return;
+            }
         }}}}
     }}
     // the same acceptance through the high-level API: textselection(&offset) on a text selection of a resource (bound to an
@@ -1040,8 +1054,35 @@ fn find_relative_offsets() {
             let want = match (rel(&off.begin), rel(&off.end)) { (Some(b), Some(e)) => 0 <= b && b <= e && e <= len, _ => false };
             let got = std::panic::catch_unwind(std::panic::AssertUnwindSafe(|| container.textselection(&off).map(|t| (t.begin(), t.end()))));
             let bad = match &got { Ok(Ok((tb, te))) => !want || Some(*tb as isize - cb as isize) != rel(&off.begin) || Some(*te as isize - cb as isize) != rel(&off.end), Ok(Err(_)) => want, Err(_) => true };
+            let got2 = std::panic::catch_unwind(std::panic::AssertUnwindSafe(|| container.absolute_offset(&off)));
+            let bad2 = match &got2 { Ok(Ok(a)) => !want || a.begin != Cursor::BeginAligned((cb as isize + rel(&off.begin).unwrap()) as usize) || a.end != Cursor::BeginAligned((cb as isize + rel(&off.end).unwrap()) as usize), Ok(Err(_)) => want, Err(_) => true };
+            if bad2 {
+                println!("WITNESS {{\"clause\":\"ResultTextSelection::absolute_offset/accept_iff\",\"container\":\"{}..{}\",\"offset\":\"{:?}\",\"result\":\"{:?}\",\"should_accept\":{}}}", cb, ce, off, got2.map_err(|_| "panic"), want);
+                return;
+            }
+            if std::panic::catch_unwind(|| off.len()).is_err() {
+                println!("WITNESS {{\"clause\":\"Offset::len/value\",\"offset\":\"{:?}\",\"result\":\"panic\"}}", off);
+                return;
+            }
             if bad {
                 println!("WITNESS {{\"clause\":\"FindText::textselection on a text selection/accept_iff\",\"container\":\"{}..{}\",\"offset\":\"{:?}\",\"result\":\"{:?}\",\"should_accept\":{}}}", cb, ce, off, got.map_err(|_| "panic"), want);
+                return;
+            }
+        }
+    }
+    // the resource itself (default method of the Text trait): accepted exactly when the offset denotes a range of the text
+    {
+        let len = TEXT.chars().count() as isize;
+        let cursors = |v: isize| -> Vec<Cursor> { let mut c = vec![Cursor::EndAligned(v)]; if v >= 0 { c.push(Cursor::BeginAligned(v as usize)); } c };
+        let rel = |c: &Cursor| -> Option<isize> { match c { Cursor::BeginAligned(x) => if *x <= isize::MAX as usize { Some(*x as isize) } else { None }, Cursor::EndAligned(x) => if *x <= 0 && *x >= -len { Some(len + *x) } else { None } } };
+        let mut offsets: Vec<Offset> = vec![Offset::new(Cursor::BeginAligned(usize::MAX), Cursor::BeginAligned(usize::MAX)), Offset::new(Cursor::BeginAligned(0), Cursor::BeginAligned(usize::MAX)), Offset::new(Cursor::EndAligned(isize::MIN), Cursor::EndAligned(0))];
+        for bv in -(len + 3)..=(len + 6) { for ev in -(len + 3)..=(len + 6) { for bc in cursors(bv) { for ec in cursors(ev) { offsets.push(Offset::new(bc, ec)); } } } }
+        for off in offsets {
+            let want = match (rel(&off.begin), rel(&off.end)) { (Some(b), Some(e)) => 0 <= b && b <= e && e <= len, _ => false };
+            let got = std::panic::catch_unwind(std::panic::AssertUnwindSafe(|| resource.absolute_offset(&off)));
+            let bad = match &got { Ok(Ok(a)) => !want || a.begin != Cursor::BeginAligned(rel(&off.begin).unwrap() as usize) || a.end != Cursor::BeginAligned(rel(&off.end).unwrap() as usize), Ok(Err(_)) => want, Err(_) => true };
+            if bad {
+                println!("WITNESS {{\"clause\":\"Text::absolute_offset/accept_iff\",\"text_length\":{},\"offset\":\"{:?}\",\"result\":\"{:?}\",\"should_accept\":{}}}", len, off, got.map_err(|_| "panic"), want);
                 return;
             }
         }
@@ -1117,8 +1158,8 @@ fn find_subselectors() {
 /// absolute codepoint offsets where the text occurs, in order and inside the range
 #[test]
 fn find_text_ops() {
-    let texts = ["a b c d", "abab", "é €€ 𝄞 é", "xXxX", "  ab  ", "", "\u{130}\u{130}xab", "\u{212A}x b"];
-    let needles = ["a", "ab", " ", "€", "é", "X", "b c", "i", "k"];
+    let texts = ["a b c d", "abab", "é €€ 𝄞 é", "xXxX", "  ab  ", "", "\u{130}\u{130}xab", "\u{212A}x b", "ΑΑΣ σας"];
+    let needles = ["a", "ab", " ", "€", "é", "X", "b c", "i", "k", "Σ", "ας"];
     for text in texts {
         let store = AnnotationStore::default().with_resource(TextResourceBuilder::new().with_id("r").with_text(text)).unwrap();
         let res = store.resource("r").unwrap();
@@ -1139,8 +1180,10 @@ fn find_text_ops() {
                 {
                     let schars: Vec<char> = sub.chars().collect();
                     let mut low: Vec<(char, usize, bool)> = vec![];   // (lowercased char, index of the original char, first of its expansion)
-                    for (i, c) in schars.iter().enumerate() { for (k, l) in c.to_lowercase().enumerate() { low.push((l, i, k == 0)); } }
-                    let lneedle: Vec<char> = needle.to_lowercase().chars().collect();
+                    // (character by character, independent of context: every form of the Greek sigma compares equal)
+                    let fold = |c: char| -> Vec<char> { c.to_lowercase().map(|x| if x == 'ς' { 'σ' } else { x }).collect() };
+                    for (i, c) in schars.iter().enumerate() { for (k, l) in fold(*c).into_iter().enumerate() { low.push((l, i, k == 0)); } }
+                    let lneedle: Vec<char> = needle.chars().flat_map(|c| fold(c)).collect();
                     let mut want: Vec<(usize, usize)> = vec![];
                     let mut p = 0usize;
                     while !lneedle.is_empty() && p + lneedle.len() <= low.len() {
@@ -1166,6 +1209,17 @@ fn find_text_ops() {
                     None => res.find_text_regex(&exprs, None, true).unwrap().flat_map(|m| m.textselections().iter().map(|t| (t.begin(), t.end())).collect::<Vec<_>>()).collect(),
                     Some(s) => s.find_text_regex(&exprs, None, true).unwrap().flat_map(|m| m.textselections().iter().map(|t| (t.begin(), t.end())).collect::<Vec<_>>()).collect() } }));
                 if got.as_ref().ok() != Some(&want) { println!("WITNESS {{\"clause\":\"find_text_regex\",\"text\":{:?},\"range\":\"{}..{}\",\"pattern\":{:?},\"got\":\"{:?}\",\"want\":\"{:?}\"}}", text, b, e, needle, got.ok(), want); return; }
+            }
+            // a pattern whose only capture group is optional: the group when it takes part in the match, the whole match otherwise
+            {
+                let re = regex::Regex::new("(a)?b").unwrap();
+                let want: Vec<(usize, usize)> = re.captures_iter(&sub).map(|c| { let m = c.get(1).unwrap_or_else(|| c.get(0).unwrap()); (charpos(m.start()), charpos(m.end())) }).collect();
+                let exprs = [re.clone()];
+                let got = std::panic::catch_unwind(std::panic::AssertUnwindSafe(|| -> Vec<Vec<(usize, usize)>> { match &sel {
+                    None => res.find_text_regex(&exprs, None, true).unwrap().map(|m| m.textselections().iter().map(|t| (t.begin(), t.end())).collect::<Vec<_>>()).collect(),
+                    Some(s) => s.find_text_regex(&exprs, None, true).unwrap().map(|m| m.textselections().iter().map(|t| (t.begin(), t.end())).collect::<Vec<_>>()).collect() } }));
+                let wantv: Vec<Vec<(usize, usize)>> = want.iter().map(|x| vec![*x]).collect();
+                if got.as_ref().ok() != Some(&wantv) { println!("WITNESS {{\"clause\":\"find_text_regex\",\"text\":{:?},\"range\":\"{}..{}\",\"pattern\":\"(a)?b\",\"got\":\"{:?}\",\"want\":\"{:?}\"}}", text, b, e, got.ok(), wantv); return; }
             }
             // find_text_sequence: the fragments in order, from the beginning of the searched text, only skippable characters (spaces) in between
             for frags in [vec!["a", "b"], vec!["b", "c"], vec!["a", "b", "c"], vec!["b", "b"], vec!["€", "𝄞"], vec!["a"], vec!["x", "X"], vec!["a", "b", "a", "b"], vec!["a", "b", "c", "d"], vec!["x", "X", "x"]] {
@@ -1293,6 +1347,69 @@ fn find_query_semantics() {
             }
         }
     }
+    // ---- "the same query given as STAMQL text, built programmatically, or expressed through the iterator API gives the same answer":
+    //      value tests with typed literals against a scan with the corresponding DataOperator, over two datasets whose keys and data
+    //      share handle numbers; SELECT KEY / SELECT DATA across datasets; ADD stores what the direct call stores
+    {
+        let mut st = AnnotationStore::default().with_resource(TextResourceBuilder::new().with_id("r").with_text("Hello wonderful world")).unwrap();
+        let vals: Vec<DataValue> = vec![DataValue::Int(5), DataValue::Float(0.75), DataValue::String("true".into()), DataValue::Bool(true), DataValue::String("any".into()), DataValue::String("x".into()), DataValue::Float(5.5), DataValue::Int(0), DataValue::String("null".into()), DataValue::Null];
+        for (i, v) in vals.iter().enumerate() {
+            st.annotate(AnnotationBuilder::new().with_id(format!("V{}", i)).with_target(SelectorBuilder::textselector("r", Offset::simple(i, i + 1))).with_data("A", "n", v.clone())).unwrap();
+        }
+        st.annotate(AnnotationBuilder::new().with_id("W0").with_target(SelectorBuilder::textselector("r", Offset::simple(0, 5))).with_data("B", "m", "y").with_data("A", "n", 5)).unwrap();
+        let ids = |q: &str| -> Result<Vec<String>, String> {
+            let query: Query = q.try_into().map_err(|e: StamError| format!("parse: {}", e))?;
+            let iter = st.query(query).map_err(|e| format!("query: {}", e))?;
+            let mut out = vec![];
+            for results in iter { for r in results.iter() { match r {
+                QueryResultItem::Annotation(a) => out.push(a.id().unwrap_or("?").to_string()),
+                QueryResultItem::DataKey(k) => out.push(format!("{}/{}", k.set().id().unwrap_or("?"), k.as_str())),
+                QueryResultItem::AnnotationData(d) => out.push(format!("{}/{}={}", d.set().id().unwrap_or("?"), d.key().as_str(), d.value())),
+                _ => {} } } }
+            out.sort();
+            Ok(out)
+        };
+        let scan = |op: DataOperator| -> Vec<String> { let mut v: Vec<String> = st.annotations().filter(|a| a.data().any(|d| d.set().id() == Some("A") && d.key().as_str() == "n" && d.value().test(&op))).map(|a| a.id().unwrap().to_string()).collect(); v.sort(); v };
+        let cases: Vec<(&str, DataOperator)> = vec![
+            ("= 5", DataOperator::EqualsInt(5)), ("> 0.5", DataOperator::GreaterThanFloat(0.5)), ("< 0.8", DataOperator::LessThanFloat(0.8)), (">= 5.5", DataOperator::GreaterThanOrEqualFloat(5.5)),
+            ("= 0.75", DataOperator::EqualsFloat(0.75)), ("> 3", DataOperator::GreaterThan(3)), ("= \"true\"", DataOperator::Equals("true".into())), ("= \"any\"", DataOperator::Equals("any".into())),
+            ("= \"null\"", DataOperator::Equals("null".into())), ("= \"x\"", DataOperator::Equals("x".into())), ("= \"5\"", DataOperator::Equals("5".into())),
+        ];
+        for (lit, op) in cases {
+            let q = format!("SELECT ANNOTATION ?a WHERE DATA \"A\" \"n\" {};", lit);
+            let want = scan(op.clone());
+            match std::panic::catch_unwind(std::panic::AssertUnwindSafe(|| ids(&q))) {
+                Err(_) => { println!("WITNESS {{\"clause\":\"query\",\"query\":{:?},\"problem\":\"panic\"}}", q); return; }
+                Ok(got) => if got.as_ref().ok() != Some(&want) { println!("WITNESS {{\"clause\":\"STAMQL text = the programmatic value test\",\"query\":{:?},\"got\":\"{:?}\",\"scan_with\":\"{:?}\",\"want\":\"{:?}\"}}", q, got, op, want); return; }
+            }
+        }
+        let all_keys: Vec<String> = { let mut v: Vec<String> = st.datasets().flat_map(|s| s.keys().map(|k| format!("{}/{}", k.set().id().unwrap(), k.as_str())).collect::<Vec<_>>()).collect(); v.sort(); v };
+        let got = std::panic::catch_unwind(std::panic::AssertUnwindSafe(|| ids("SELECT KEY ?k")));
+        if got.as_ref().ok().and_then(|r| r.as_ref().ok()) != Some(&all_keys) { println!("WITNESS {{\"clause\":\"SELECT KEY returns the keys of every dataset\",\"got\":\"{:?}\",\"want\":\"{:?}\"}}", got.ok(), all_keys); return; }
+        let mut api_keys: Vec<String> = st.keys().map(|k| format!("{}/{}", k.set().id().unwrap(), k.as_str())).collect(); api_keys.sort();
+        if api_keys != all_keys { println!("WITNESS {{\"clause\":\"AnnotationStore::keys returns the keys of every dataset\",\"got\":\"{:?}\",\"want\":\"{:?}\"}}", api_keys, all_keys); return; }
+        let mut w0: Vec<String> = st.annotation("W0").unwrap().keys().map(|k| format!("{}/{}", k.set().id().unwrap(), k.as_str())).collect(); w0.sort();
+        if w0 != vec!["A/n".to_string(), "B/m".to_string()] { println!("WITNESS {{\"clause\":\"annotation.keys() lists the keys of all its data\",\"got\":\"{:?}\",\"want\":\"[A/n, B/m]\"}}", w0); return; }
+        // the two orders of a DATA and an ANNOTATION constraint in SELECT DATA
+        let q1 = "SELECT ANNOTATION ?a WHERE ID \"W0\"; { SELECT DATA ?d WHERE ANNOTATION ?a; DATA \"A\" \"n\" > 0; }";
+        let q2 = "SELECT ANNOTATION ?a WHERE ID \"W0\"; { SELECT DATA ?d WHERE DATA \"A\" \"n\" > 0; ANNOTATION ?a; }";
+        let (r1, r2) = (std::panic::catch_unwind(std::panic::AssertUnwindSafe(|| ids(q1))), std::panic::catch_unwind(std::panic::AssertUnwindSafe(|| ids(q2))));
+        match (&r1, &r2) {
+            (Ok(Ok(a)), Ok(Ok(b))) if a == b && a.contains(&"A/n=5".to_string()) => {}
+            _ => { println!("WITNESS {{\"clause\":\"conjunction = intersection, in either order (SELECT DATA)\",\"query\":{:?},\"first_order\":\"{:?}\",\"second_order\":\"{:?}\"}}", q2, r1.map_err(|_| "panic"), r2.map_err(|_| "panic")); return; }
+        }
+        // ADD stores what the direct call stores
+        for (lit, want) in [("7", DataValue::Int(7)), ("7.5", DataValue::Float(7.5)), ("\"seven\"", DataValue::String("seven".into())), ("null", DataValue::Null), ("\"a|b\"", DataValue::String("a|b".into()))] {
+            let mut st2 = AnnotationStore::default().with_resource(TextResourceBuilder::new().with_id("r").with_text("Hello world")).unwrap();
+            let qs = format!("ADD ANNOTATION ?a WITH DATA \"A\" \"k\" {}; TARGET ?t; {{ SELECT TEXT ?t WHERE RESOURCE \"r\" OFFSET 0 5; }}", lit);
+            let got = std::panic::catch_unwind(std::panic::AssertUnwindSafe(|| -> Result<Option<DataValue>, String> {
+                let query: Query = qs.as_str().try_into().map_err(|e: StamError| format!("parse: {}", e))?;
+                let mut value = None;
+                for results in st2.query_mut(query).map_err(|e| format!("query: {}", e))? { if let Ok(QueryResultItem::Annotation(a)) = results.get_by_name("a") { value = a.data().next().map(|d| d.value().clone()); } }
+                Ok(value) }));
+            if got.as_ref().ok() != Some(&Ok(Some(want.clone()))) { println!("WITNESS {{\"clause\":\"ADD stores what the direct call stores\",\"query\":{:?},\"stored\":\"{:?}\",\"want\":\"{:?}\"}}", qs, got.map_err(|_| "panic"), want); return; }
+        }
+    }
     println!("NO-WITNESS find_query_semantics");
 }
 
@@ -1369,6 +1486,25 @@ fn find_data_search() {
         let mut want: Vec<String> = dataset.data().filter(|d| oracle(d.value(), name)).map(|d| format!("{:?}", d.handle())).collect(); want.sort();
         let mut got: Vec<String> = dataset.find_data(false, op).map(|d| format!("{:?}", d.handle())).collect(); got.sort();
         if got != want { println!("WITNESS {{\"clause\":\"find_data(any key, operator) = scan\",\"operator\":{:?},\"got\":\"{:?}\",\"want\":\"{:?}\"}}", name, got, want); return; }
+    }
+    // ---- keys and data of different datasets stay distinct although every dataset numbers them from 0
+    {
+        let mut st = AnnotationStore::default().with_resource(TextResourceBuilder::new().with_id("r").with_text("Hello world")).unwrap();
+        st.annotate(AnnotationBuilder::new().with_id("a").with_target(SelectorBuilder::textselector("r", Offset::simple(0, 5))).with_data("A", "pos", "noun").with_data("B", "lemma", "world")).unwrap();
+        st.annotate(AnnotationBuilder::new().with_id("b").with_target(SelectorBuilder::textselector("r", Offset::simple(6, 11))).with_data("B", "lemma", "world").with_data("A", "pos", "verb")).unwrap();
+        let scan_keys: Vec<String> = { let mut v: Vec<String> = st.datasets().flat_map(|s| s.keys().map(|k| format!("{}/{}", k.set().id().unwrap(), k.as_str())).collect::<Vec<_>>()).collect(); v.sort(); v };
+        let scan_data: Vec<String> = { let mut v: Vec<String> = st.datasets().flat_map(|s| s.data().map(|d| format!("{}/{}={}", d.set().id().unwrap(), d.key().as_str(), d.value())).collect::<Vec<_>>()).collect(); v.sort(); v };
+        let sorted = |mut v: Vec<String>| { v.sort(); v };
+        let lookups: Vec<(&str, Vec<String>, &Vec<String>)> = vec![
+            ("AnnotationStore::keys()", sorted(st.keys().map(|k| format!("{}/{}", k.set().id().unwrap(), k.as_str())).collect()), &scan_keys),
+            ("annotations().keys()", sorted(st.annotations().keys().map(|k| format!("{}/{}", k.set().id().unwrap(), k.as_str())).collect()), &scan_keys),
+            ("annotations().data()", sorted(st.annotations().data().map(|d| format!("{}/{}={}", d.set().id().unwrap(), d.key().as_str(), d.value())).collect()), &scan_data),
+            ("data().keys()", sorted(st.data().keys().map(|k| format!("{}/{}", k.set().id().unwrap(), k.as_str())).collect()), &scan_keys),
+        ];
+        for (name, got, want) in lookups {
+            if got != **want { println!("WITNESS {{\"clause\":\"lookups across datasets equal a scan\",\"lookup\":{:?},\"got\":\"{:?}\",\"scan\":\"{:?}\"}}", name, got, want); return; }
+        }
+        if st.key("A", "pos") == st.key("B", "lemma") { println!("WITNESS {{\"clause\":\"lookups across datasets equal a scan\",\"lookup\":\"key(A,pos) == key(B,lemma)\",\"got\":\"true\",\"scan\":\"two different keys\"}}"); return; }
     }
     println!("NO-WITNESS find_data_search");
 }
